@@ -19,6 +19,29 @@ pub(crate) fn create_debug_map_builder() -> proc_macro2::TokenStream {
     )
 }
 
+/// How a field is borrowed for the builders, which take `&dyn Debug`: `&[u8]`, `&str` and `&dyn Trait` cannot be
+/// coerced to it (the last field of a struct may be unsized), a reference to such a reference can.
+#[inline]
+pub(crate) fn borrow_for_builder(ty: &Type) -> TokenStream {
+    let mut ty = ty;
+
+    while let Type::Group(group) = ty {
+        ty = group.elem.as_ref();
+    }
+
+    let unsized_by_syntax = match ty {
+        Type::Slice(_) | Type::TraitObject(_) => true,
+        Type::Path(ty) => ty.qself.is_none() && ty.path.is_ident("str"),
+        _ => false,
+    };
+
+    if unsized_by_syntax {
+        quote!(&&)
+    } else {
+        quote!(&)
+    }
+}
+
 #[inline]
 pub(crate) fn create_format_arg(
     ast: &DeriveInput,
